@@ -180,7 +180,7 @@ func genAllOfFamily(r vlib.Rnd) []byte {
 	var sb strings.Builder
 	sb.WriteString("JSIGHT 0.3\n\n")
 	n := 2 + r.Intn(4)
-	rules := []string{"", "", "type: \"any\"", "type: \"object\"", "additionalProperties: true", "additionalProperties: \"string\"", "nullable: true", "additionalProperties: \"@t0\"", "type: \"mixed\""}
+	rules := []string{"", "", "type: \"any\"", "type: \"object\"", "additionalProperties: true", "additionalProperties: \"string\"", "nullable: true", "additionalProperties: \"@t0\"", "type: \"mixed\"", "additionalProperties: \"decimal\"", "additionalProperties: \"enum\"", "additionalProperties: \"mixed\"", "additionalProperties: \"integer\"", "additionalProperties: \"any\"", "additionalProperties: false"}
 	for i := 0; i < n; i++ {
 		var rr []string
 		if i > 0 && vlib.Chance(r, 3, 4) {
@@ -436,9 +436,10 @@ func genPathFamily(r vlib.Rnd) []byte {
 			path += "/{" + n + "}"
 		}
 	}
+	extra := []string{}
 	pathDir := func(ind string) {
 		var props []string
-		for _, n := range names {
+		for _, n := range append(append([]string(nil), names...), extra...) {
 			if vlib.Chance(r, 1, 2) {
 				props = append(props, fmt.Sprintf("%s    \"%s\": %s", ind, n, vlib.Pick(r, vals)))
 			}
@@ -481,14 +482,25 @@ func genPathFamily(r vlib.Rnd) []byte {
 			}
 			sb.WriteString("    200 any\n")
 		}
+		if vlib.Chance(r, 1, 2) {
+			// a deeper stand-alone method after the URL group, with its own Path (it may describe the new variable only,
+			// or repeat - legally or not - what the URL's Path said)
+			extra = []string{"d"}
+			sb.WriteString("GET " + path + "/more/{d}\n")
+			pathDir("  ")
+			sb.WriteString("  200 any\n")
+			extra = nil
+		}
 	} else {
 		sb.WriteString("GET " + path + "\n")
 		pathDir("  ")
 		sb.WriteString("  200 any\n")
 		if vlib.Chance(r, 1, 2) {
+			extra = []string{"d"}
 			sb.WriteString("POST " + path + "/more/{d}\n")
 			pathDir("  ")
 			sb.WriteString("  200 any\n")
+			extra = nil
 		}
 	}
 	if viaMacro {
